@@ -632,8 +632,12 @@ func oracleUDP(c gnet.Conn) {
 	d := udpSent[udpSeen]
 	udpSeen++
 	b, _ := c.Peek(-1)
-	if !bytes.Equal(b, d.payload) {
-		fail(fmt.Sprintf("C08: datagram %d: readable bytes %s, payload %s", udpSeen, util.Hex(b), util.Hex(d.payload)))
+	want := d.payload
+	if _, _, rbc, _ := st.loop.Options(); len(want) > rbc { // beyond the read-buffer size the property makes no claim: the kernel truncates
+		want = want[:rbc]
+	}
+	if !bytes.Equal(b, want) {
+		fail(fmt.Sprintf("C08: datagram %d: readable bytes %s, payload %s", udpSeen, util.Hex(b)[:200], util.Hex(want)[:200]))
 	}
 	if c.RemoteAddr() == nil || c.RemoteAddr().String() != d.from {
 		fail(fmt.Sprintf("C08: datagram %d: RemoteAddr %v, sender %s", udpSeen, c.RemoteAddr(), d.from))
